@@ -498,8 +498,10 @@ func runCase(r *h.Run, c caseT) {
 		peer.Close()
 		<-readerDone
 	}
+	atomic.AddInt64(&progress, 1)
 	stream = bytes.Join(chunks, nil)
 	chunks = nil
+	atomic.AddInt64(&progress, 1)
 	if w.failed {
 		return
 	}
